@@ -184,6 +184,65 @@ Theorem c16_completed_all_answered :
 Proof. exact completed_all_answered. Qed.
 Print Assumptions c16_completed_all_answered.
 
+(* ---- the calls that get NO next request: only the calls of a run's last iteration can stay unanswered
+   (c16_answered_next_request covers every other iteration), and only for one of three named reasons:
+   - stateful mode and no response id to chain the outputs to: nothing was executed, "provider_error";
+   - the 32-call bound (then exactly 32 calls were processed in the run);
+   - the payload validator refused the follow-up — and the refused payload was exactly the answer to these calls
+     (all of them processed; same shape c16_answered_next_request demands of a next request).
+   A next request whose stream fails, or for which nothing is scripted, is still a sent request: it is an
+   iteration of its own, so its predecessor's calls were answered. ---- *)
+Theorem c16_unanswered_only_when :
+  forall g valid tool prompt init script pre it,
+  res_iters (run g valid tool prompt init script) = pre ++ [it] -> it_calls it <> [] ->
+  (res_reason (run g valid tool prompt init script) = ProviderError /\
+   res_rejected (run g valid tool prompt init script) = None /\ g_stateless g = false /\ it_done it = []) \/
+  (res_reason (run g valid tool prompt init script) = MaxToolCalls /\
+   res_rejected (run g valid tool prompt init script) = None /\
+   nlen (processed (run g valid tool prompt init script)) = MAX_TOOL_CALLS) \/
+  (res_reason (run g valid tool prompt init script) = InvalidRequest /\
+   exists q, res_rejected (run g valid tool prompt init script) = Some q /\
+     map x_call (it_done it) = it_calls it /\
+     (g_stateless g = false ->
+        q_input q = InItems (outputs_for false (it_done it) ++ fmsg g) /\ q_prev q <> None /\ q_kind q = 3) /\
+     (g_stateless g = true ->
+        q_prev q = None /\ q_kind q = 4 /\
+        filter is_out (items_of q) = filter is_out (items_of (it_req it)) ++ outputs_for true (it_done it) /\
+        (g_fixed g = true ->
+           items_of q = items_of (it_req it) ++ map call_item (it_calls it) ++ outputs_for true (it_done it) ++ fmsg g))).
+Proof. exact unanswered_only_when. Qed.
+Print Assumptions c16_unanswered_only_when.
+
+(* ---- the same call id across responses.  A call = a call id completed in one response.  Stateful mode: a request
+   answers the ids of the response just before it and nothing else (c16_answered_once_by_call_id).  Stateless
+   history: request k answers, in order, the ids of ALL earlier responses, response by response, after the outputs
+   the initial context already held — so an id that m earlier responses completed is answered exactly m times in
+   request k: once per response, never more, never fewer. ---- *)
+Theorem c16_answers_accumulate :
+  forall g valid tool prompt init script pre it post,
+  g_stateless g = true ->
+  res_iters (run g valid tool prompt init script) = pre ++ it :: post ->
+  out_ids (items_of (it_req it)) = out_ids (init_items init) ++ flat_map (fun i => map c_id (it_calls i)) pre.
+Proof. exact answers_accumulate. Qed.
+Print Assumptions c16_answers_accumulate.
+
+Theorem c16_answered_once_per_response :
+  forall g valid tool prompt init script pre it post cid,
+  g_stateless g = true -> g_fixed g = FIXED ->
+  res_iters (run g valid tool prompt init script) = pre ++ it :: post ->
+  count_occ str_eq_dec (out_ids (items_of (it_req it))) cid
+  = (count_occ str_eq_dec (out_ids (init_items init)) cid + length (filter (completes cid) pre))%nat.
+Proof. exact answered_once_per_response. Qed.
+Print Assumptions c16_answered_once_per_response.
+
+(* the first request answers nothing the initial context did not already hold (both modes) *)
+Theorem c16_first_request_answers_nothing :
+  forall g valid tool prompt init script it rest,
+  res_iters (run g valid tool prompt init script) = it :: rest ->
+  out_ids (items_of (it_req it)) = out_ids (init_items init).
+Proof. exact first_request_out_ids. Qed.
+Print Assumptions c16_first_request_answers_nothing.
+
 (* ---- stateless-history mode: each request's input extends the previous one ---- *)
 Theorem c16_stateless_prefix :
   forall g valid tool prompt init script pre it1 it2 post,
@@ -213,3 +272,16 @@ Proof. exact ex_wf_done. Qed.
 
 Example c16_example_dedupe : length (drain (collect FIXED s19_events)) = 1%nat.
 Proof. exact s19_fixed_once. Qed.
+
+(* a run whose follow-up is refused: one iteration, two drained calls left unanswered, the refused payload answers both *)
+Example c16_example_refused_followup :
+  length (res_iters ex_refused_run) = 1%nat /\ res_reason ex_refused_run = InvalidRequest /\
+  map (fun it => map c_id (it_calls it)) (res_iters ex_refused_run) = [[lit "c2"; lit "c1"]] /\
+  match res_rejected ex_refused_run with Some q => out_ids (items_of q) = [lit "c2"; lit "c1"] | None => False end.
+Proof. exact ex_refused_shape. Qed.
+
+(* the same call id completed by two responses (stateless history): answered once per response *)
+Example c16_example_same_id :
+  res_reason ex_same_id_run = Completed /\
+  map (fun it => out_ids (items_of (it_req it))) (res_iters ex_same_id_run) = [[]; [lit "c1"]; [lit "c1"; lit "c1"]].
+Proof. exact ex_same_id_shape. Qed.
